@@ -19,7 +19,7 @@ use core::mem;
 //@map /\bString\b/ => VxMsg
 //@map /Self::MAX_REORG_SIZE/ => MAX_REORG_SIZE
 //@map /(?s)for \(listener, _\) in self\.listeners\.values\(\) \{\s*listener\.on_streamed_block_start\(\);\s*\}/ => self.vx_tell_listeners_stream_start();
-//@map /RefCell::new\(BlockDecodeState::new\(hash\)\)/ => vx_new_decode_state(hash)
+//@map /RefCell::new\(/ => vx_refcell(
 //@macro error_invalid_chain => Error::InvalidChain
 //@macro error_orphan_block => Error::OrphanBlock(vx_msg())
 //@macro error_invalid_block => Error::InvalidBlock
@@ -132,8 +132,11 @@ pub open spec fn streamed_block_is(pending: Option<VxDecodeState>, proof: TxoPro
 }
 pub uninterp spec fn listeners_told(hash: BlockHash, is_remove: bool) -> bool;
 pub uninterp spec fn listeners_told_stream_start<L: ChainListener>(listeners: VxListeners<L>) -> bool;
+// chain/tracker.rs BlockDecodeState::new(hash) and the RefCell around it
+#[verifier::external_body] pub struct BlockDecodeState { _p: u8 }
+impl BlockDecodeState { #[verifier::external_body] pub fn new(hash: BlockHash) -> BlockDecodeState { unimplemented!() } }
 #[verifier::external_body]
-pub fn vx_new_decode_state(hash: BlockHash) -> VxDecodeState { unimplemented!() }
+pub fn vx_refcell(s: BlockDecodeState) -> VxDecodeState { unimplemented!() }
 
 impl<L: ChainListener> ChainTracker<L> {
 
